@@ -38,6 +38,7 @@ func run(r *vk.Run) {
 		"Exhaustive part: every sequence of length 4 (thorough: 5, and length 4 over a larger alphabet with 4 addressable modes and full-replace updates) over the 25-symbol alphabet {create x2, add x {a0,a1} x2, update x {a0,a1,c0} x {on,off}, delete x {a0,a1,c0} x {allow-missing?}, set-active x3, change-active x3, clear-active} where c0 is the first mode created with a generated id; once with every call on the Model API and once with every call that has an RPC on the ModelServer (ElectricApi / MemorySettingsApi methods; add and set-active have no RPC and stay on the Model). "+
 		"Random part: 100-step sequences over 4 fixed ids, 3 generated ids and a never-existing id, starting from 0-2 initial modes, per-sequence door model / server / generated in-process clients / mixed, with PullModes and PullActiveMode subscriptions (Model channel or client stream, with and without backpressure) opened at random steps and folded; folded views are compared with Modes()/ActiveMode() at quiescent points. "+
 		"Concurrent part: 2-4 goroutines issue 6-10 such operations each on one model while vk.Sched.Stress yields pseudo-randomly at the library's hook points; an observer goroutine takes atomic Modes() snapshots and, in windows in which provably no active-mode operation ran, ActiveMode/Modes/ActiveMode triples; backpressured PullModes/PullActiveMode streams give every committed state in order; everything is re-checked at the final quiescent point (vk.Quiesce). "+
+		"Storm part: 2-4 goroutines released together delete one existing non-active mode (with / without allow-missing, Model or server): all succeed resp. exactly one does. "+
 		"After every step the statement's clauses are evaluated on Modes()/ActiveMode() before and after the call, the call's result and the fake clock. "+
 		"A case is distinct by (abstract state before: presence/normal flag of every addressable mode, number of other modes, which mode is active; operation; result code) resp. for concurrent runs by (mix, workers, outcome multiset); non-trivial = the operation's premise was met (counted per clause under premise:*).",
 		"the statement's 'switching to a different mode stamps its start time' is asserted for ChangeActiveMode/UpdateActiveMode and ChangeToNormalMode/ClearActiveMode; SetActiveMode is documented as 'StartTime will not be set for you' and stores the caller's mode, its start time is observed, not judged",
@@ -54,6 +55,7 @@ func run(r *vk.Run) {
 	randomSequences(r)
 	t2 := time.Now()
 	concurrent(r)
+	deleteStorm(r)
 	if r.Shard == 0 {
 		r.Note("shard 0 wall time: exhaustive %.1fs, random %.1fs, concurrent %.1fs", t1.Sub(t0).Seconds(), t2.Sub(t1).Seconds(), time.Since(t2).Seconds())
 	}
@@ -62,6 +64,7 @@ func run(r *vk.Run) {
 	r.Require("steps:exhaustive", r.Pick(200000, 2000000))
 	r.Require("steps:random", r.Pick(5000, 100000))
 	r.Require("conc:runs", r.Pick(200, 5000))
+	r.Require("storm:rounds", r.Pick(3000, 100000))
 	for _, p := range []string{
 		"premise:second-normal/create", "premise:second-normal/add", "premise:second-normal/update",
 		"premise:delete-active", "premise:delete-absent/plain", "premise:delete-absent/allow-missing",
@@ -247,12 +250,21 @@ type world struct {
 }
 
 func newWorld(clk clock.Clock, seed uint64, clients bool, init ...*traits.ElectricMode) *world {
+	return newWorldPlaceholder(clk, seed, clients, "", init...)
+}
+
+// newWorldPlaceholder: placeholder != "" makes the model start with a dummy active mode carrying that id (the
+// documented initial state: the active mode of a new model need not exist), instead of the default blank one.
+func newWorldPlaceholder(clk clock.Clock, seed uint64, clients bool, placeholder string, init ...*traits.ElectricMode) *world {
 	opts := []resource.Option{
 		electricpb.WithClock(clk),
 		electricpb.WithRNG(rand.New(&splitmix{s: seed})),
 	}
 	if len(init) > 0 {
 		opts = append(opts, electricpb.WithInitialMode(init...))
+	}
+	if placeholder != "" {
+		opts = append(opts, electricpb.WithInitialActiveMode(&traits.ElectricMode{Id: placeholder, Title: "placeholder"}))
 	}
 	w := &world{m: electricpb.NewModel(opts...)}
 	w.srv = electricpb.NewModelServer(w.m)
